@@ -59,6 +59,26 @@ def plan(tier, seed):
                         "start": start, "skip": sk, "depth": depth,
                         "seed": seed, "profile": {"x64": False},
                         "part": "ds_" + rname})
+  # hyper-parameters of the grafting optimizer itself and of the norm
+  # transplant: a large diagonal epsilon, second-moment decay 1 (RMSProp
+  # becomes a sum), and tiny gradients after ordinary ones (the
+  # preconditioned gradient's norm is then ~1e-12)
+  for gt in [1, 2, 3, 4, 5, 6]:
+    for var in ["de1e-3", "b2=1", "tiny"]:
+      for start in ([2] if tier == "quick" else [0, 2]):
+        tasks.append({"name": "ds/g%d/full/start%d/none/%s" % (gt, start,
+                                                               var),
+                      "kind": "ds", "graft": gt, "repr": "full",
+                      "start": start, "skip": "none", "depth": depth,
+                      "variant": var, "seed": seed,
+                      "profile": {"x64": False}, "part": "ds_variants"})
+  for so in ["shampoo", "sketchy"]:
+    for start in ([2] if tier == "quick" else [0, 2]):
+      tasks.append({"name": "tf/rmsprop/%s/start%d/none/gd1" % (so, start),
+                    "kind": "tf", "graft": "rmsprop", "so": so,
+                    "start": start, "skip": "none", "depth": depth,
+                    "graft_decay": 1.0, "seed": seed,
+                    "profile": {"x64": False}, "part": "tf_" + so})
   for gt in ["sgd", "rmsprop", "adafactor"]:
     for so in ["shampoo", "sketchy"]:
       for start in starts:
@@ -73,7 +93,9 @@ def plan(tier, seed):
       "tasks": tasks,
       "rule": "6 graft types x 5 preconditioner representations x start "
               "steps %s x skip rules (distributed_shampoo) and 3 graft types "
-              "x 2 second-order methods x start x skip rules (tearfree) x all "
+              "x 2 second-order methods x start x skip rules (tearfree), plus "
+              "the grafting hyper-parameters (diagonal epsilon 1e-3, decay "
+              "1, tiny gradients after ordinary ones) x all "
               "histories over %s up to depth %d; state = bit-exact optimizer "
               "state; non-trivial = transition at or after the start step "
               "with a non-zero gradient" % (starts, EVENTS, depth),
@@ -93,7 +115,7 @@ def graft_step(kind, g, acc, b2=0.5, de=1e-10):
     return sg / (np.sqrt(acc) + de), acc
   if kind in (3, 4):
     sg = g / (np.linalg.norm(g) + 1e-25) if kind == 4 else g
-    acc = b2 * acc + (1 - b2) * sg * sg
+    acc = b2 * acc + ((1 - b2) if b2 != 1.0 else 1.0) * sg * sg
     return sg / (np.sqrt(acc) + de), acc
   if kind == 1:
     return g, acc
@@ -111,8 +133,18 @@ def run_ds(task, acc):
              start_preconditioning_step=task["start"],
              best_effort_shape_interpretation=False)
   cfg.update(SKIPS[task["skip"]])
+  var = task.get("variant")
+  b2, de, events = 0.5, 1e-10, EVENTS
+  if var == "de1e-3":
+    de = 1e-3
+    cfg["diagonal_epsilon"] = de
+  elif var == "b2=1":
+    b2 = 1.0
+    cfg["beta2"] = b2
+  elif var == "tiny":
+    events = ["gA", "tiny", "g0"]
   runner = ds.Runner(cfg, SHAPES, mode)
-  alpha = ds.grad_trees(SHAPES, EVENTS, (0, 8), task["seed"])
+  alpha = ds.grad_trees(SHAPES, events, (0, 8), task["seed"])
   full = dict(ref.BASE, **cfg)
   leaves = {n: ref.Leaf(full, SHAPES[n], runner.params_np[n])
             for n in SHAPES}
@@ -142,7 +174,7 @@ def run_ds(task, acc):
     nxt = []
     for s, accs, hist in frontier:
       t = len(hist)
-      for ev in EVENTS:
+      for ev in events:
         if not on_path(task, hist + (ev,)):
           continue
         u, s2 = runner.step(s, alpha[ev])
@@ -152,7 +184,7 @@ def run_ds(task, acc):
         accs2 = {}
         for n in SHAPES:
           g = alpha[ev][n].astype(np.float64)
-          gstep, accs2[n] = graft_step(task["graft"], g, accs[n])
+          gstep, accs2[n] = graft_step(task["graft"], g, accs[n], b2, de)
           got = -np.asarray(u[n], np.float64)
           lf = leaves[n]
           case = dict(case0, history=list(h2), leaf=n)
@@ -235,7 +267,8 @@ def run_tf(task, acc):
   shapes = {"v": [5], "c": [6, 7], "m": [4, 2]}
   skip = {"none": {}, "rank1_off": {"skip_preconditioning_rank1": False},
           "dim_gt6": {"skip_preconditioning_any_dim_gt": 6}}[task["skip"]]
-  cfg = dict(grafting_type=task["graft"], graft_decay=0.5,
+  gd = task.get("graft_decay", 0.5)
+  cfg = dict(grafting_type=task["graft"], graft_decay=gd,
              second_order_type=task["so"], block_size=3, merge_dims=2,
              second_moment_decay=0.5, sketchy_rank=2,
              start_preconditioning_step=task["start"], momentum_decay=0.0,
@@ -307,7 +340,8 @@ def run_tf(task, acc):
           if task["graft"] == "sgd":
             gstep, accs2[n] = gg, accs[n]
           elif task["graft"] == "rmsprop":
-            accs2[n] = 0.5 * gg * gg + 0.5 * accs[n]
+            accs2[n] = (accs[n] + gg * gg) if gd == 1.0 else \
+                ((1 - gd) * gg * gg + gd * accs[n])
             gstep = gg / np.sqrt(accs2[n] + 1e-23)
           else:
             gstep, accs2[n] = -np.asarray(au[n], np.float64), accs[n]
